@@ -198,6 +198,11 @@ func (self *visitorUserNode) OnBool(v bool) error {
 		return newError(meta.ErrDismatchType, "json scalar does not match the descriptor", nil)
 	}
 
+	if fieldDesc.Kind() != proto.BoolKind {
+		// a JSON bool for a field (or list element / map value) of another kind
+		return newError(meta.ErrDismatchType, fmt.Sprintf("field '%s' is not a bool, got a json bool", fieldDesc.Name()), nil)
+	}
+
 	// packed list no need to write tag
 	if !fieldDesc.Type().IsList() {
 		if err = self.p.AppendTagByKind(fieldDesc.Number(), fieldDesc.Kind()); err != nil {
